@@ -91,7 +91,10 @@ def gmt2sec (s : Bytes) : Option Int :=
 
 /-! ### d/h/m/s -/
 
-def natText (n : Nat) : Bytes := (toString n).toList.map Char.toNat
+/-- Decimal text of a natural number (`%d`). -/
+def natText (n : Nat) : Bytes := if n < 10 then [digit n] else natText (n / 10) ++ [digit n]
+termination_by n
+decreasing_by omega
 
 /-- `splitIntToDHMS` + `sec2dhms`: the sign is carried by the leading unit only. -/
 def sec2dhms (t : Int) : Bytes :=
